@@ -156,10 +156,11 @@ Definition ascii_z (c : ascii) : Z := Z.of_N (N_of_ascii c).
 Fixpoint string_bytes (s : string) : list Z :=
   match s with EmptyString => [] | String c r => ascii_z c :: string_bytes r end.
 
-(* type_support.rs:67-75  u32::from_le_bytes(md5(name)[0..4]) *)
+(* type_support.rs:67-76  u32::from_le_bytes(md5(name)[0..4]) & 0x0FFF_FFFF
+   (DDS-XTypes 7.3.1.2.1.1: member ids are 28 bit wide; fix 470723e) *)
 Definition hash_id (name : string) : Z :=
   match md5 (string_bytes name) with
-  | b0 :: b1 :: b2 :: b3 :: _ => b0 + 256 * b1 + 65536 * b2 + 16777216 * b3
+  | b0 :: b1 :: b2 :: b3 :: _ => (b0 + 256 * b1 + 65536 * b2 + 16777216 * b3) mod 268435456
   | _ => 0
   end.
 
@@ -232,11 +233,7 @@ Fixpoint sig_of (t : ty) : tsig :=
   match t with
   | TPrim p => Sig (kind_of_prim p) ""%string [] None
   | TString => Sig K_STRING8 ""%string [u32_max] None
-  | TVec e =>
-      match e with
-      | TPrim PI8 => Sig K_SEQUENCE ""%string [u32_max] (Some (Sig (kind_of_prim PU8) ""%string [] None))  (* type_support.rs:374-389 *)
-      | _ => Sig K_SEQUENCE (if is_complex e then "SequenceComplexValue"%string else ""%string) [u32_max] (Some (sig_of e))
-      end
+  | TVec e => Sig K_SEQUENCE (if is_complex e then "SequenceComplexValue"%string else ""%string) [u32_max] (Some (sig_of e))
   | TArr e n => Sig K_ARRAY ""%string [Z.of_nat n] (Some (sig_of e))
   | TOpt e => sig_of e
   | TStruct h _ => Sig K_STRUCTURE (tname (s_rname h) (s_cname h)) [] None
